@@ -10,15 +10,15 @@ from vf import instrument as I
 from vf.core import digest
 from vf.gen import ALL_KINDS, gen_data
 from vf.models.wellformed import problems
-from vf.spec import INDEX_KINDS, build, make_frame, short
+from vf.spec import INDEX_KINDS, TIED_INDEX_KINDS, build, make_frame, short
 from vf.zoo import DETECTORS, random_detector
 
-SHARDS = {"quick": 8, "thorough": 16}
+SHARDS = {"quick": 16, "thorough": 16}
 WATCHDOG = {"quick": 1800, "thorough": 10800}
-CASES = {"quick": 170, "thorough": 2500}
+CASES = {"quick": 250, "thorough": 2500}
 FLOORS = {
-    "quick": dict({"distinct_nontrivial": 400, "K1_evaluations": 700},
-                  **{f"nonempty[{d}]": 25 for d in DETECTORS}),
+    "quick": dict({"distinct_nontrivial": 1100, "K1_evaluations": 1800},
+                  **{f"nonempty[{d}]": 120 for d in DETECTORS}),
     "thorough": dict({"distinct_nontrivial": 8000, "K1_evaluations": 15000},
                      **{f"nonempty[{d}]": 300 for d in DETECTORS}),
 }
@@ -70,7 +70,7 @@ def make_recipe(rng, tier, which):
     b = kw.get("bandwidth") or kw.get("min_segment_length") or 1
     X, _ = gen_data(rng, n, p, kind, boundary=b)
     return {"det": spec, "X": X, "data_kind": kind,
-            "index": "range0" if rng.random() < 0.5 else INDEX_KINDS[int(rng.integers(5))]}
+            "index": "range0" if rng.random() < 0.4 else (INDEX_KINDS + TIED_INDEX_KINDS)[int(rng.integers(7))]}
 
 
 def exec_case(ctx, r):
